@@ -131,6 +131,8 @@ def battery(K, rng, qlimit, kinds=('L', 'P', 'R')):
     Q = deviation_queries(K, rng, qlimit)
     for q in Q:
         for kd in kinds:
+            if kd in ('R', 'RC') and len(K) > 1000 and len(q) < 3:
+                continue          # would list a large part of a big dictionary
             ops.append('%s %s' % (kd, hexs(q)))
     return ops
 
